@@ -20,6 +20,8 @@ Proof.
   - destruct (m_conf_changed st items) as [s1|k|]; try discriminate.
     destruct (m_snapshot s1 names) as [[s2 snap]|]; inversion H; reflexivity.
   - destruct (m_socks st) as [[s1 r]|]; inversion H; reflexivity.
+  - destruct (m_getattr st src) as [[[s1 rn] g]|k|]; [|inversion H; reflexivity|discriminate].
+    match type of H with match ?r with _ => _ end = _ => destruct r as [s2|k|] end; inversion H; reflexivity.
 Qed.
 
 Lemma run_silent names : forall ops st tr,
@@ -341,17 +343,22 @@ Proof.
     + inversion E. apply set_config_unsaved_keys.
 Qed.
 
+Lemma setattr_wf st name v st1 : m_setattr st name v = Ok st1 -> unsaved_wf st -> unsaved_wf st1.
+Proof.
+  intros E Hwf. unfold m_setattr in E.
+  destruct (ci_eqb (find_real_name st name) hiddenservices_lc); [discriminate|].
+  destruct (dget (find_real_name st name) (m_parsers st)) as [[[pk vk] il]|]; [|discriminate].
+  destruct (validate vk v) as [v1|k|]; cbn [bind] in E; inversion E.
+  unfold unsaved_wf. cbn [with_unsaved m_unsaved]. now apply NoDup_keys_dset.
+Qed.
+
 Lemma step_wf names st o st' ob :
   m_step names st o = Some (st', ob) -> unsaved_wf st -> unsaved_wf st'.
 Proof.
   intros H Hwf. destruct o; cbn [m_step] in H.
   - (* assign *)
     destruct (m_setattr st name v) as [s1|k|] eqn:E; inversion H; subst; [|assumption].
-    unfold m_setattr in E.
-    destruct (ci_eqb (find_real_name st name) hiddenservices_lc); [discriminate|].
-    destruct (dget (find_real_name st name) (m_parsers st)) as [[[pk vk] il]|]; [|discriminate].
-    destruct (validate vk v) as [v1|k|]; cbn [bind] in E; inversion E.
-    unfold unsaved_wf. cbn [with_unsaved m_unsaved]. now apply NoDup_keys_dset.
+    eapply setattr_wf; eassumption.
   - (* list op *)
     destruct (m_listop st name o) as [[s1 ex]|k|] eqn:E; [|discriminate|discriminate].
     assert (unsaved_wf s1) as Hs1.
@@ -397,6 +404,12 @@ Proof.
     assert (unsaved_wf sg) as Hsg by (unfold unsaved_wf; now rewrite Hu).
     destruct g as [[[[|c0 s0]|z0|b0|t0]|w [|x l]]|[[|c0 s0]|[|x l]]]; try discriminate; try (inversion E; subst; assumption);
       match type of E with option_map _ ?r = _ => destruct r as [r0|]; cbn [option_map] in E; inversion E; subst; assumption end.
+  - (* copy *)
+    destruct (m_getattr st src) as [[[sg rn] g]|k|] eqn:EG; [|inversion H; subst; assumption|discriminate].
+    pose proof (getattr_unsaved _ _ _ _ _ EG) as Hu.
+    assert (unsaved_wf sg) as Hsg by (unfold unsaved_wf; now rewrite Hu).
+    match type of H with match ?r with _ => _ end = _ => destruct r as [s2|k|] eqn:E end; inversion H; subst; [|assumption].
+    eapply setattr_wf; eassumption.
 Qed.
 
 (* after bootstrap nothing is pending *)
@@ -493,6 +506,22 @@ Lemma ok_example :
                          [bs "SETCONF NumCPUs=7 Log=""q\""uote"" Log=""notice stdout"" Log=""info file /tmp/x"""]; []; []; []; []].
 Proof. split; [vm_compute; reflexivity|]. split; [vm_compute; reflexivity|].
        eexists _, _. split; [vm_compute; reflexivity|]. split; vm_compute; reflexivity. Qed.
+
+(* config.A = config.B: A takes the list read from B; afterwards the two are independent options --
+   an in-place edit of A names A only, B reads as before; assigning an option its own view re-sends it *)
+Definition w_copy := w_input [OpCopy (bs "Log") (bs "exitnodes"); OpSave None;
+                              OpListOp (bs "Log") (LAppend (AStr (bs "x"))); OpNeedsSave; OpSave None;
+                              OpRead (bs "ExitNodes"); OpListOp (bs "ExitNodes") (LPop None); OpSave None;
+                              OpRead (bs "Log"); OpCopy (bs "ExitNodes") (bs "ExitNodes"); OpSave None].
+Lemma copy_example :
+  c10_scope w_copy = true /\ c10_known w_copy = false /\
+  exists snap tr, model_run w_copy = Some (true, snap, tr) /\ oracle w_copy tr = true
+    /\ concat (map o_wrote tr) = [bs "SETCONF Log=a Log=b"; bs "SETCONF Log=a Log=b Log=x"; bs "SETCONF ExitNodes=a";
+                                  bs "SETCONF ExitNodes=a"]
+    /\ nth_error (map o_res tr) 5 = Some (XVal (RList true [bs "a"; bs "b"]))
+    /\ nth_error (map o_res tr) 8 = Some (XVal (RList true [bs "a"; bs "b"; bs "x"])).
+Proof. split; [vm_compute; reflexivity|]. split; [vm_compute; reflexivity|].
+       eexists _, _. split; [vm_compute; reflexivity|]. repeat split; vm_compute; reflexivity. Qed.
 
 (* ================================================================== what the loop of save() leaves in config / unsaved *)
 (* config[key] after `self.config[real_name] = value` *)
